@@ -574,7 +574,23 @@ def s_named(version, mid):
 SPLIT_PROBES = {"split_slots": s_slots, "split_subs": s_subs, "split_router": s_router, "split_abi": s_abi,
                 "split_named": s_named}
 
-PROBES = {"same_expr_version_order": p_same_expr_version_order, "templates_tied": p_templates_tied, "same_expr_query_before_build": p_same_expr_query_before_build, "recursive_reserved": p_recursive_reserved, "named_things": p_named_things, "abi_main": p_abi_main, "recursive": p_recursive, "router": p_router, "slots": p_slots,
+def p_many_tied(version):
+    """populations of 12 equally frequent constants of each block at two different frequencies (ties far beyond the
+    six of templates_tied): their order inside the constant blocks must not depend on hashing"""
+    steps = []
+    for i in range(12):
+        for _r in range(2):
+            steps.append(pt.Pop(pt.Bytes("tied-%d" % i)))
+            steps.append(pt.Pop(pt.Int(70000 + i)))
+    for i in range(12):
+        for _r in range(3):
+            steps.append(pt.Pop(pt.Bytes("base16", "0x%02x%02x" % (i, 255 - i))))
+            steps.append(pt.Pop(pt.Int(90000 + 7 * i)))
+    e = pt.Seq(*steps, pt.Int(1))
+    return pt.compileTeal(e, pt.Mode.Application, version=version, assembleConstants=True)
+
+
+PROBES = {"many_tied": p_many_tied, "same_expr_version_order": p_same_expr_version_order, "templates_tied": p_templates_tied, "same_expr_query_before_build": p_same_expr_query_before_build, "recursive_reserved": p_recursive_reserved, "named_things": p_named_things, "abi_main": p_abi_main, "recursive": p_recursive, "router": p_router, "slots": p_slots,
           "same_expr_twice": p_same_expr_twice, "same_expr_probe_between": p_same_expr_probe_between,
           "router_twice": p_router_twice, "same_expr_one_compilation_object": p_same_compilation_twice}
 PROBE_VERSIONS = (6, 8)
